@@ -18,6 +18,7 @@ func valueUniverse() []interface{} {
 	return []interface{}{
 		nil, true, false,
 		int64(-1), int64(0), int64(1), int64(2), big, -big, int64(6000000000000000000), int64(-6000000000000000000),
+		uint32(3), int32(3), int(3),
 		float64(-1), float64(0), 0.5, float64(1), 1.5, float64(2), float64(big), -0.5, 1e-3, float64(big) * 4,
 		"", "a", "ab", "b", "a\"b\\", "A",
 		L{}, L{int64(1)}, L{int64(1), int64(2)}, L{float64(1)}, L{"a"}, L{L{}}, L{nil}, L{int64(2)},
@@ -220,6 +221,9 @@ func genC17Fixed(e *emitter, pes []fieldpath.PathElement) {
 	emitFLMatrix(e, []value.FieldList{
 		fl(), fl("a", int64(1)), fl("a", float64(1)), fl("a", int64(2)), fl("b", int64(1)),
 		fl("a", int64(1), "b", int64(2)), fl("a", int64(1), "b", int64(3)), fl("a", "x"), fl("a", nil),
+		// three and five fields, differing in the last one only; prefixes of one another
+		fl("a", int64(1), "b", int64(2), "c", int64(1)), fl("a", int64(1), "b", int64(2), "c", int64(2)),
+		fl("a", int64(1), "b", int64(2), "c", int64(1), "d", "x", "e", int64(1)), fl("a", int64(1), "b", int64(2), "c", int64(1), "d", "x", "e", int64(2)),
 		fl("b", int64(1), "a", int64(1)), fl("a", int64(1), "a", int64(1)),
 	})
 	pms := []fieldpath.PathElementMatcher{{Wildcard: true}, {Wildcard: true, PathElement: peField("a")}}
